@@ -127,8 +127,36 @@ class SymContext(object):
     def assume(self, cond):
         self.ctx.assume(cond)
 
-    def ensures(self, name, cond, **meta):
-        self.ctx.oblige(name, cond, meta)
+    def ensures(self, name, cond, using=None, **meta):
+        self.ctx.oblige(name, cond, meta, using=None if using is None else [self._h(u) for u in using])
+
+    def _h(self, u):
+        return u if isinstance(u, bool) else self._sym.zbool(u)
+
+    def hyp(self, cond):
+        """a formula that is already a hypothesis of the current path (assumption / path
+        literal / proved step), to be passed in `using=`: stated as a step so that it is checked"""
+        return cond
+
+    def witness_facts(self, *values):
+        """the defining facts (r >= 0, r*r == radicand) of sqrt/abs witnesses, for `using=`"""
+        import z3
+        ids = set()
+        for v in values:
+            if isinstance(v, self._sym.Re):
+                ids.add(v.t.get_id())
+        out = []
+        for f in self.ctx.facts:
+            names = set()
+            todo = [f]
+            while todo:
+                x = todo.pop()
+                if z3.is_const(x) and x.decl().kind() == z3.Z3_OP_UNINTERPRETED:
+                    names.add(x.get_id())
+                todo.extend(x.children())
+            if names & ids:
+                out.append(f)
+        return out
 
     def fact(self, cond):
         """a true mathematical fact used as a hypothesis (listed in the evidence)"""
@@ -139,11 +167,33 @@ class SymContext(object):
         from .explore import PathAbort
         raise PathAbort("cut")
 
+    def step(self, name, cond, using=None, **meta):
+        """lemma chain: an obligation that later obligations of this path may use; returns the
+        formula so it can be listed in a later `using=`"""
+        f = self._h(cond)
+        self.ctx.oblige(name, f, meta, using=None if using is None else [self._h(u) for u in using])
+        self.ctx.assume(f)
+        return f
+
+    def assumed(self, cond):
+        """assume and return the formula (for `using=`)"""
+        f = self._h(cond)
+        self.ctx.assume(f)
+        return f
+
+    def cut_at(self, qual, local_name, hook):
+        """assert-then-assume cut at the assignment `local_name = ...` inside function `qual`:
+        hook(value) states what is proved about the value (c.step/c.ensures) and returns the
+        abstracted value that execution continues with"""
+        self.ip.cuts[(qual, local_name)] = lambda v, env: hook(v)
+
     def use_lemma(self, name, *args):
         """assume an instance of a ghost lemma that is proved by its own contract"""
         from contracts import lemmas
         self.ctx.notes.append(('lemma', name))
-        self.ctx.assume(self._sym.zbool(lemmas.LEMMAS[name](*args)))
+        f = self._sym.zbool(lemmas.LEMMAS[name](*args))
+        self.ctx.assume(f)
+        return f
 
     def known(self, cond):
         return self.ctx.known(cond)
@@ -333,11 +383,28 @@ class ConcContext(object):
     def use_lemma(self, name, *args):
         pass
 
+    def step(self, name, cond, using=None, **meta):
+        self.results.append((name, bool(cond)))
+        return cond
+
+    def cut_at(self, qual, local_name, hook):
+        pass
+
     def decide(self, cond):
         return bool(cond)
 
-    def ensures(self, name, cond, **meta):
+    def ensures(self, name, cond, using=None, **meta):
         self.results.append((name, bool(cond)))
+
+    def hyp(self, cond):
+        return cond
+
+    def witness_facts(self, *values):
+        return []
+
+    def assumed(self, cond):
+        self.assume(cond)
+        return cond
 
     def glob(self, qual):
         import importlib
